@@ -347,7 +347,38 @@ pub fn run(ctx: &Ctx) {
 
     super::regressions::run(ctx, "C12", |j| SchedCase::from_json(j).map(|c| check(&c)));
 
+    // histories of abandoned evaluations: k evaluations started, polled to their first suspension and dropped, then a
+    // scheduled run; each case on a fresh OS thread so that the case alone is the whole history (replayable as is)
     let specs = core_specs();
+    let ks: [u32; 12] = [1, 2, 3, 5, 10, 25, 50, 100, 150, 200, 300, 400];
+    let hist: Vec<SchedCase> = specs
+        .iter()
+        .flat_map(|sp| {
+            ks.iter().map(move |k| SchedCase {
+                spec: sp.clone(),
+                inputs: vec![simple_facts(1), simple_facts(2)],
+                order: vec![0, 1, 1, 0, 0, 1],
+                drop: Some((1, 1)),
+                abandoned_before: *k,
+            })
+        })
+        .collect();
+    ctx.enumerate(
+        "abandoned-histories",
+        hist.len() as u64,
+        true,
+        |i, acc| {
+            let c = hist[i as usize].clone();
+            acc.cell("history:abandoned-then-scheduled", true);
+            if i % 7 == 0 {
+                acc.sample("history", || render(&c));
+            }
+            std::thread::scope(|s| s.spawn(|| check(&c)).join()).unwrap_or_else(|_| Err(Issue::new("sched:panic", "check thread panicked")))
+        },
+        |i| hist[i as usize].to_json(),
+        "sched",
+    );
+
     let orders = 1u64 << 10;
     let drops = 13u64; // none, (0, 0..=5), (1, 0..=5)
     let total = specs.len() as u64 * orders * drops;
